@@ -20,6 +20,8 @@ Tpl == {
   [t |-> "block", scope |-> "", sel |-> "u", members |-> << <<"p", L("1")>> >>, lines |-> 2],
   [t |-> "block", scope |-> "", sel |-> "g", members |-> << <<"p", <<"ref", "w">>>> >>, lines |-> 2],
   [t |-> "block", scope |-> "b", sel |-> "f", members |-> << <<"p", L("3")>> >>, lines |-> 2],     \* a block nothing is wrong with
+  B("", "h", "p", L("1")), B("", "g", "p", <<"ref", "h">>),          \* h names two registered configurables
+  [t |-> "block", scope |-> "", sel |-> "h", members |-> << <<"p", L("1")>> >>, lines |-> 2],
   [t |-> "import", module |-> "gvmod_ok", lines |-> 1],
   [t |-> "import", module |-> "gvmod_missing", lines |-> 1],
   [t |-> "include", file |-> "a", lines |-> 1],
@@ -29,6 +31,7 @@ Tpl == {
   [t |-> "syntax", lines |-> 1] }
 
 TplQuick == {
+  B("", "h", "p", L("1")), B("", "g", "p", <<"ref", "h">>),
   B("", "f", "p", L("1")), B("", "f", "p", L("2")), B("", "u", "p", L("1")), B("", "f", "q", L("1")), B("", "g", "p", <<"ref", "u">>),
   [t |-> "block", scope |-> "a", sel |-> "f", members |-> << <<"p", L("2")>>, <<"q", L("1")>> >>, lines |-> 3],
   [t |-> "block", scope |-> "", sel |-> "u", members |-> << <<"p", L("1")>> >>, lines |-> 2],
@@ -39,8 +42,9 @@ TplQuick == {
 \* the include-heavy family: overriding bindings around (repeated) includes
 TplDiamond == { B("", "f", "p", L("1")), B("", "f", "p", L("2")), B("a", "f", "p", L("1")),
   [t |-> "include", file |-> "a", lines |-> 1], [t |-> "include", file |-> "b", lines |-> 1] }
+Amb == {"h"}
 SkipFalse == { [mode |-> "false", names |-> {}] }
-Skips == { [mode |-> "false", names |-> {}], [mode |-> "true", names |-> {}], [mode |-> "list", names |-> {"u"}] }
+Skips == { [mode |-> "false", names |-> {}], [mode |-> "true", names |-> {}], [mode |-> "list", names |-> {"u", "h"}] }
 Files3 == {"root", "a", "b", "p"}
 Max3 == [n \in Files3 |-> CASE n = "root" -> 2 [] n = "a" -> 1 [] n = "b" -> 0 [] n = "p" -> 1]
 MaxDiamond == [n \in Files3 |-> CASE n = "root" -> 3 [] n = "a" -> 1 [] n = "b" -> 1 [] n = "p" -> 0]
